@@ -45,8 +45,8 @@ def dag_cases(tier):
         batch = []
         size = 60 if n <= 3 else 400
         for d, dag in enumerate(dags(k, n)):
-            if (k, n) == (3, 4) and d % 8 != 3:
-                continue  # stated bound: every 8th DAG of the 302 400 with k=3, n=4
+            if (k, n) == (3, 4) and d % 16 != 3:
+                continue  # stated bound: every 16th DAG of the 302 400 with k=3, n=4
             batch.append((d, dag))
             if len(batch) == size:
                 out.append({"kind": "dag", "name": "dag/k%d/n%d/%d" % (k, n, d), "k": k, "n": n, "dags": batch})
@@ -362,11 +362,14 @@ def prog_cases(tier):
             for s2 in _stmts(POOL + ["v1"], must_use="v1"):
                 progs.append("v1 = %s\nv2 = %s\nout = v2" % (s1, s2))
         small = ["x", "y", "2.0"]
+        n3 = 0
         f1 = _stmts(small, U=REDUCED_U, B=REDUCED_B)
         for s1 in f1:
             for s2 in _stmts(small + ["v1"], must_use="v1", U=REDUCED_U, B=REDUCED_B):
                 for s3 in _stmts(small + ["v1", "v2"], must_use="v2", U=REDUCED_U, B=REDUCED_B):
-                    progs.append("v1 = %s\nv2 = %s\nv3 = %s\nout = v3" % (s1, s2, s3))
+                    n3 += 1
+                    if n3 % 4 == 0:  # stated bound: every 4th depth-3 program
+                        progs.append("v1 = %s\nv2 = %s\nv3 = %s\nout = v3" % (s1, s2, s3))
     else:
         # quick: full alphabet on the leaves x, y and the constant c, followed by a reduced-alphabet statement
         for s1 in _stmts(["x", "y"]):
@@ -470,7 +473,7 @@ def main(argv=None):
         functions=["mygrad.tensor_base.Tensor._op", "Tensor.backward", "Tensor._backward", "Tensor.clear_graph",
                    "mygrad._utils.collect_all_tensors_and_clear_grads", "mygrad._utils.reduce_broadcast",
                    "mygrad.operation_base.Operation.backward", "Operation.grad_post_process_fn", "backward_var of the ops in the alphabet"],
-        bounds={"dag": "k in {2,3}, n <= 3 (quick); thorough adds k=2,n=4 (all 43 200) and every 8th of the 302 400 DAGs with k=3,n=4; leaf shapes (2,),(),(1,)", "compositions":
+        bounds={"dag": "k in {2,3}, n <= 3 (quick); thorough adds k=2,n=4 (all 43 200) and every 16th of the 302 400 DAGs with k=3,n=4; leaf shapes (2,),(),(1,)", "compositions":
                 "depth <= 2 full alphabet (quick); + depth 3 reduced alphabet (thorough); leaves (2,3),(3,),(2,1), constant (3,), scalar"},
         assumptions=["real arithmetic", "compositional argument (correct per-op VJP + correct traversal => correct total derivative) for "
                      "graphs beyond the bound is on paper, not decided by the solver"],
